@@ -6,7 +6,9 @@ from ..driver import call, stub
 from ..history import Run, draw_op
 from ..oracle.schema import parikh, schema
 from ..run import hyp_search, mix
-from .c01 import enum_histories, symbol_subset
+import itertools
+
+from .c01 import enum_histories, enum_word_removals, symbol_subset
 
 RULE = ('histories of add / remove / xml_x=None (removals at any position): (a) ALL histories of <=3 ops (quick; <=4 '
         'for alphabets <=4 in thorough) over a deterministic symbol subset of every type, (b) Hypothesis-drawn adaptive '
@@ -116,7 +118,8 @@ def run_shard(ctx, shard, acc):
             n = len(s.alphabet(t))
             depth = 4 if (not ctx.quick and n <= 4) else 3
             syms = symbol_subset(t, 5)
-            for ops in enum_histories(t, depth, 5 if ctx.quick else 6):
+            for ops in itertools.chain(enum_histories(t, depth, 8 if ctx.quick else 12),
+                                       enum_word_removals(t, 4, 100 if ctx.quick else 1000)):
                 if ops[-1][0] == 'to_string' or any(o[0] == 'to_string' for o in ops):
                     continue
                 if ops[-1][0] == 'add' and not any(o[0] in ('remove', 'dot_none') for o in ops):
